@@ -457,10 +457,11 @@ THOROUGH_FILES = QUICK_FILES + ["tests/test_halide_ops.py", "tests/test_range_an
                                 "tests/test_x86.py", "tests/test_neon.py", "tests/test_parallel.py",
                                 "tests/test_externs.py", "tests/test_precision.py", "tests/test_typecheck.py",
                                 "tests/test_bounds.py", "tests/test_im2col.py", "tests/test_metaprogramming.py",
-                                "tests/asplos25/test_higher_order.py", "tests/test_apps.py"]
+                                "tests/asplos25/test_higher_order.py"]
+# (tests/test_apps.py is left out: 15-20 minutes per run, and its procedures are too large for the bounded input domain)
 
 
-def run_tests(files, workdir, repo=None, cap=6, timeout=1500, fwd=True, units=True, purity=True, max_cells=600,
+def run_tests(files, workdir, repo=None, cap=6, timeout=3000, fwd=True, units=True, purity=True, max_cells=600,
               edits=False, claims=False, trace_ops="", texts=False, extra_env=None, c_units=0, heap=False, reparse=0):
     """Run each test file (optionally split into shards by -k-less item slicing) under the recorder.
     -> (records, per-file info)."""
@@ -493,7 +494,7 @@ def run_tests(files, workdir, repo=None, cap=6, timeout=1500, fwd=True, units=Tr
         except subprocess.TimeoutExpired:
             p.kill()
             so, _ = p.communicate()
-            info[f] = {"rc": "timeout"}
+            info[f] = {"timed_out": True}
         tail = so.strip().splitlines()[-1] if so.strip() else ""
         ended = False
         n = 0
@@ -513,12 +514,13 @@ def run_tests(files, workdir, repo=None, cap=6, timeout=1500, fwd=True, units=Tr
                     n += 1
             os.unlink(out)
         info.setdefault(f, {}).update({"rc": p.returncode, "summary": tail[-120:], "records": n, "ended": ended})
-        if not ended and info[f].get("rc") != "timeout":
+        # a test file that ran out of time contributes what it recorded so far (lost coverage, reported in the evidence)
+        if not ended and not info[f].get("timed_out"):
             raise MachineryError(f"recorder did not finish on {f}:\n" + "\n".join(so.splitlines()[-15:]))
     return recs, info
 
 
-def test_edges(files, workdir, cap=4, max_cells=600, fwd=False, purity=False, units=True, timeout=1500, edits=False,
+def test_edges(files, workdir, cap=4, max_cells=600, fwd=False, purity=False, units=True, timeout=3000, edits=False,
                claims=False, trace_ops="", c_units=0, heap=False, reparse=0):
     """Recorded derivation edges of the repository's tests in the record format of edgecheck.decide_edges
     (prog = test id, args = ordinal of the step in its test file, facts = {}).  -> (edges, info, other records)"""
@@ -562,7 +564,7 @@ def add_test_edges(rep, tier, workdir, files=None, **kw):
     kw.setdefault("max_cells", 300 if quick else 1500)
     edges, info, other = test_edges(files, workdir, **kw)
     st = collections.Counter(e["rec_status"] for e in edges)
-    rep.cov["repo_tests"] = {"files": {f: {k: v for k, v in i.items() if k in ("rc", "summary", "records", "edges", "overhead_s")}
+    rep.cov["repo_tests"] = {"files": {f: {k: v for k, v in i.items() if k in ("rc", "summary", "records", "edges", "overhead_s", "timed_out")}
                                        for f, i in info.items()},
                              "recorded_steps": len(edges), "by_status": dict(st),
                              "distinct_projected": sum(1 for e in edges if "unit" in e),
